@@ -54,6 +54,13 @@ class FrameTooLargeError(Exception):
     pass
 
 
+def _split_tokens(value: bytes) -> List[str]:
+    try:
+        return split_comma_header(value)
+    except UnicodeDecodeError:
+        return []  # Not a list of tokens, nothing is offered or asked for
+
+
 class Handshake:
     def __init__(self, headers: List[Tuple[bytes, bytes]], http_version: str) -> None:
         self.accepted = False
@@ -67,13 +74,13 @@ class Handshake:
         for name, value in headers:
             name = name.lower()
             if name == b"connection":
-                self.connection_tokens = split_comma_header(value)
+                self.connection_tokens = _split_tokens(value)
             elif name == b"sec-websocket-extensions":
-                self.extensions = split_comma_header(value)
+                self.extensions = _split_tokens(value)
             elif name == b"sec-websocket-key":
                 self.key = value
             elif name == b"sec-websocket-protocol":
-                self.subprotocols = split_comma_header(value)
+                self.subprotocols = _split_tokens(value)
             elif name == b"sec-websocket-version":
                 self.version = value
             elif name == b"upgrade":
